@@ -82,7 +82,7 @@ fn tctx(t: &(u128, u64, bool)) -> trace::Context {
         sampling_decision: if t.2 { trace::SamplingDecision::Sampled } else { trace::SamplingDecision::Unsampled },
     }
 }
-fn from_tctx(t: &trace::Context) -> (u128, u64, bool) {
+pub fn from_tctx(t: &trace::Context) -> (u128, u64, bool) {
     (u128::from(t.trace_id), u64::from(t.span_id), t.sampling_decision == trace::SamplingDecision::Sampled)
 }
 
@@ -146,7 +146,7 @@ pub fn gen_s2c(r: &mut Rng, n: usize, big: bool) -> Vec<Msg> {
         .collect()
 }
 
-fn to_client_message(m: &Msg) -> (ClientMessage<String>, Option<Instant>) {
+pub fn to_client_message(m: &Msg) -> (ClientMessage<String>, Option<Instant>) {
     match m {
         Msg::Req { id, body, remaining, trace } => {
             let now = Instant::now();
@@ -162,7 +162,7 @@ fn to_client_message(m: &Msg) -> (ClientMessage<String>, Option<Instant>) {
         _ => unreachable!(),
     }
 }
-fn to_response(m: &Msg) -> Response<String> {
+pub fn to_response(m: &Msg) -> Response<String> {
     match m {
         Msg::Resp { id, body } => Response {
             request_id: *id,
@@ -415,6 +415,15 @@ pub fn c15_case(cfg: &C15Cfg) -> Outcome {
                         let c = lazy_rd!(rdio, tokio_serde::formats::Json::<Response<String>, ClientMessage<String>>::default());
                         run_pair!(s, c, Response<String>, mk_s, un_s)
                     }
+                } else if cfg.seed & 2 == 0 {
+                    // the other shipped constructor
+                    let c = tarpc::serde_transport::Transport::from((a, tokio_serde::formats::Json::<Response<String>, ClientMessage<String>>::default()));
+                    let s = tarpc::serde_transport::Transport::from((b, tokio_serde::formats::Json::<ClientMessage<String>, Response<String>>::default()));
+                    if c2s {
+                        run_pair!(c, s, ClientMessage<String>, mk_c, un_c)
+                    } else {
+                        run_pair!(s, c, Response<String>, mk_s, un_s)
+                    }
                 } else {
                     let c = tarpc::serde_transport::new(Framed::new(a, LengthDelimitedCodec::new()), tokio_serde::formats::Json::<Response<String>, ClientMessage<String>>::default());
                     let s = tarpc::serde_transport::new(Framed::new(b, LengthDelimitedCodec::new()), tokio_serde::formats::Json::<ClientMessage<String>, Response<String>>::default());
@@ -440,6 +449,15 @@ pub fn c15_case(cfg: &C15Cfg) -> Outcome {
                     } else {
                         let s = tarpc::serde_transport::new(Framed::new(wr, LengthDelimitedCodec::new()), tokio_serde::formats::Bincode::<ClientMessage<String>, Response<String>>::default());
                         let c = lazy_rd!(rdio, tokio_serde::formats::Bincode::<Response<String>, ClientMessage<String>>::default());
+                        run_pair!(s, c, Response<String>, mk_s, un_s)
+                    }
+                } else if cfg.seed & 2 == 0 {
+                    // the other shipped constructor
+                    let c = tarpc::serde_transport::Transport::from((a, tokio_serde::formats::Bincode::<Response<String>, ClientMessage<String>>::default()));
+                    let s = tarpc::serde_transport::Transport::from((b, tokio_serde::formats::Bincode::<ClientMessage<String>, Response<String>>::default()));
+                    if c2s {
+                        run_pair!(c, s, ClientMessage<String>, mk_c, un_c)
+                    } else {
                         run_pair!(s, c, Response<String>, mk_s, un_s)
                     }
                 } else {
